@@ -149,6 +149,7 @@ proof fn lemma_pos_closed(start: int, n: int, k: nat)
     decreases k,
 {
     if k == 0 {
+        assert(0int * (0int + 1) == 0) by(nonlinear_arith);
         assert(tri(0) == 0);
     } else {
         lemma_pos_closed(start, n, (k - 1) as nat);
@@ -168,8 +169,6 @@ proof fn lemma_probe_distinct(g: nat, start: int, i: nat, j: nat)
     requires start >= 0, i < j, (j as int) < pow2(g),
     ensures
         spec_pos(start, Group::WIDTH * pow2(g), i) != spec_pos(start, Group::WIDTH * pow2(g), j),
-        // and every position is a whole number of groups away from the start
-        (spec_pos(start, Group::WIDTH * pow2(g), i) - start % (Group::WIDTH * pow2(g))) % (Group::WIDTH as int) == 0,
 {
     let G = pow2(g) as int;
     lemma_pow2_pos(g);
@@ -184,7 +183,6 @@ proof fn lemma_probe_distinct(g: nat, start: int, i: nat, j: nat)
         let d = tj - ti;
         assert((start + Group::WIDTH * tj) - (start + Group::WIDTH * ti) == Group::WIDTH * d) by(nonlinear_arith) requires d == tj - ti;
         assert((Group::WIDTH * d) % n == 0);
-        // n = Group::WIDTH*G divides Group::WIDTH*d  ==>  G divides d
         lemma_fundamental_div_mod(Group::WIDTH * d, n);
         let q = (Group::WIDTH * d) / n;
         assert(Group::WIDTH * d == Group::WIDTH * (G * q)) by(nonlinear_arith) requires Group::WIDTH * d == n * q, n == Group::WIDTH * G;
@@ -196,7 +194,19 @@ proof fn lemma_probe_distinct(g: nat, start: int, i: nat, j: nat)
         lemma_tri_distinct(g, i as int, j as int);
         assert(false);
     }
-    // group alignment of offsets
+}
+
+// every probe position is a whole number of groups away from the start
+proof fn lemma_pos_aligned(g: nat, start: int, i: nat)
+    requires start >= 0,
+    ensures (spec_pos(start, Group::WIDTH * pow2(g), i) - start % (Group::WIDTH * pow2(g))) % (Group::WIDTH as int) == 0,
+{
+    let G = pow2(g) as int;
+    lemma_pow2_pos(g);
+    let n = Group::WIDTH * G;
+    assert(n > 0) by(nonlinear_arith) requires G > 0, n == Group::WIDTH * G, Group::WIDTH > 0;
+    lemma_pos_closed(start, n, i);
+    let ti = tri(i as int);
     let x = start + Group::WIDTH * ti;
     lemma_fundamental_div_mod(x, n);
     lemma_fundamental_div_mod(start, n);
@@ -207,8 +217,6 @@ proof fn lemma_probe_distinct(g: nat, start: int, i: nat, j: nat)
     lemma_mod_multiples_basic(ti - G * (x / n) + G * (start / n), Group::WIDTH as int);
     assert(Group::WIDTH * (ti - G * (x / n) + G * (start / n)) == (ti - G * (x / n) + G * (start / n)) * Group::WIDTH) by(nonlinear_arith);
 }
-
-
 
 // one call of ProbeSeq::move_next (its proved contract) advances the specification position
 proof fn lemma_move_next_step(start: int, mask: usize, k: nat, pos: usize, stride: usize, pos2: usize)
@@ -225,4 +233,138 @@ proof fn lemma_move_next_step(start: int, mask: usize, k: nat, pos: usize, strid
 {
     lemma_mask_is_mod((pos + stride + Group::WIDTH) as usize, mask);
     assert(k * Group::WIDTH + Group::WIDTH == (k + 1) * Group::WIDTH) by(nonlinear_arith);
+}
+
+// ---- pigeonhole and covering: the first n/W probe windows cover every bucket ----
+pub open spec fn range_set(g: int) -> Set<int> { set_int_range(0, g) }
+proof fn lemma_range_set_finite(g: nat)
+    ensures range_set(g as int).finite(), range_set(g as int).len() == g,
+{
+    lemma_int_range(0, g as int);
+}
+
+proof fn lemma_inj_surj(g: nat, f: spec_fn(int) -> int, m: int)
+    requires
+        forall|i: int| 0 <= i < g ==> 0 <= #[trigger] f(i) < g,
+        forall|i: int, j: int| 0 <= i < j < g ==> #[trigger] f(i) != #[trigger] f(j),
+        0 <= m < g,
+    ensures exists|j: int| 0 <= j < g && #[trigger] f(j) == m,
+{
+    let s = range_set(g as int);
+    lemma_range_set_finite(g);
+    let img = s.map(f);
+    assert forall|x: int, y: int| s.contains(x) && s.contains(y) && #[trigger] f(x) == #[trigger] f(y) implies x == y by {
+        if x < y { assert(f(x) != f(y)); } else if y < x { assert(f(y) != f(x)); }
+    }
+    lemma_map_size(s, img, f);
+    assert(img.subset_of(s)) by {
+        assert forall|y: int| img.contains(y) implies s.contains(y) by {
+            let x = choose|x: int| s.contains(x) && f(x) == y;
+            assert(0 <= f(x) < g);
+        }
+    }
+    lemma_subset_equality(img, s);
+    assert(img.contains(m));
+    let j = choose|j: int| s.contains(j) && f(j) == m;
+    assert(0 <= j < g && f(j) == m);
+}
+
+proof fn lemma_pos_range(start: int, n: int, k: nat)
+    requires n > 0,
+    ensures 0 <= spec_pos(start, n, k) < n,
+    decreases k,
+{
+    if k == 0 { lemma_mod_bound(start, n); } else { lemma_mod_bound(spec_pos(start, n, (k - 1) as nat) + k * Group::WIDTH, n); }
+}
+
+
+proof fn lemma_small_mod_zero(d: int, n: int)
+    requires n > 0, -n < d < n, d % n == 0,
+    ensures d == 0,
+{
+    lemma_fundamental_div_mod(d, n);
+    let q = d / n;
+    assert(d == n * q);
+    assert(q == 0) by(nonlinear_arith) requires d == n * q, -n < d < n, n > 0;
+}
+
+// the offset of every probe position from the start is a whole number of groups, below n
+proof fn lemma_offset_aligned(g: nat, start: int, i: nat)
+    requires start >= 0, (i as int) < pow2(g),
+    ensures
+        ({
+            let n = Group::WIDTH * pow2(g);
+            let o = (spec_pos(start, n, i) - start % n) % n;
+            &&& 0 <= o < n
+            &&& o % (Group::WIDTH as int) == 0
+        }),
+{
+    let G = pow2(g) as int;
+    lemma_pow2_pos(g);
+    let n = Group::WIDTH * G;
+    assert(n > 0) by(nonlinear_arith) requires G > 0, n == Group::WIDTH * G;
+    lemma_pos_aligned(g, start, i);
+    let d = spec_pos(start, n, i) - start % n;
+    lemma_mod_bound(d, n);
+    lemma_mod_mod(d, Group::WIDTH as int, G);
+}
+
+
+// every bucket x lies in the window of some probe step j < G:  (x - pos_j) mod n < Group::WIDTH
+proof fn lemma_probe_covers(g: nat, start: int, x: int) -> (j: nat)
+    requires start >= 0, 0 <= x < Group::WIDTH * pow2(g),
+    ensures (j as int) < pow2(g), 0 <= (x - spec_pos(start, Group::WIDTH * pow2(g), j)) % (Group::WIDTH * pow2(g)) < Group::WIDTH,
+{
+    let G = pow2(g) as int;
+    lemma_pow2_pos(g);
+    let n = Group::WIDTH * G;
+    assert(n > 0 && n >= Group::WIDTH) by(nonlinear_arith) requires G > 0, n == Group::WIDTH * G;
+    let s0 = start % n;
+    lemma_mod_bound(start, n);
+    let f = |j: int| ((spec_pos(start, n, j as nat) - s0) % n) / (Group::WIDTH as int);
+    assert forall|i: int| 0 <= i < G implies 0 <= #[trigger] f(i) < G by {
+        lemma_offset_aligned(g, start, i as nat);
+        let o = (spec_pos(start, n, i as nat) - s0) % n;
+        assert(0 <= o / (Group::WIDTH as int) < G) by(nonlinear_arith) requires 0 <= o < n, n == Group::WIDTH * G, G > 0;
+    }
+    assert forall|i: int, j: int| 0 <= i < j < G implies #[trigger] f(i) != #[trigger] f(j) by {
+        lemma_probe_distinct(g, start, i as nat, j as nat);
+        lemma_pos_range(start, n, i as nat);
+        lemma_pos_range(start, n, j as nat);
+        lemma_offset_aligned(g, start, i as nat);
+        lemma_offset_aligned(g, start, j as nat);
+        let pi = spec_pos(start, n, i as nat);
+        let pj = spec_pos(start, n, j as nat);
+        let oi = (pi - s0) % n;
+        let oj = (pj - s0) % n;
+        if oi / (Group::WIDTH as int) == oj / (Group::WIDTH as int) {
+            lemma_fundamental_div_mod(oi, Group::WIDTH as int);
+            lemma_fundamental_div_mod(oj, Group::WIDTH as int);
+            assert(oi == oj);
+            lemma_mod_equivalence(pi - s0, pj - s0, n);
+            assert(((pi - s0) - (pj - s0)) % n == 0);
+            lemma_small_mod_zero(pi - pj, n);
+            assert(false);
+        }
+    }
+    lemma_mod_bound(x - s0, n);
+    let ox = (x - s0) % n;
+    let m = ox / (Group::WIDTH as int);
+    assert(0 <= m < G) by(nonlinear_arith) requires 0 <= ox < n, n == Group::WIDTH * G, m == ox / (Group::WIDTH as int), G > 0;
+    lemma_inj_surj(G as nat, f, m);
+    let jj = choose|j: int| 0 <= j < G && #[trigger] f(j) == m;
+    let pj = spec_pos(start, n, jj as nat);
+    lemma_offset_aligned(g, start, jj as nat);
+    let oj = (pj - s0) % n;
+    lemma_fundamental_div_mod(oj, Group::WIDTH as int);
+    lemma_fundamental_div_mod(ox, Group::WIDTH as int);
+    let r = ox % (Group::WIDTH as int);
+    lemma_mod_bound(ox, Group::WIDTH as int);
+    assert(oj == (Group::WIDTH as int) * m);
+    assert(ox == (Group::WIDTH as int) * m + r);
+    // (x - pj) % n == ((x - s0) - (pj - s0)) % n == (ox - oj) % n == r
+    lemma_sub_mod_noop(x - s0, pj - s0, n);
+    assert((x - s0) - (pj - s0) == x - pj);
+    lemma_small_mod(r as nat, n as nat);
+    jj as nat
 }
